@@ -217,7 +217,15 @@ Definition v_pathmodel (i : input) (k_bad : bool) : step :=
   guard k_bad VE ;>
   check_cons (internal_cons i) ;>
   guard (negb (cov_ok i)) VE ;>
-  (* only with constraints: the length-based coverage, its length attribute, and "not both" (abstractpathmodeldag.py:181-192) *)
+  guard (negb (covlen_ok i)) VE ;>                 (* the range of the length-based coverage, with or without constraints *)
+  (* only with constraints: its length attribute, and "not both" (abstractpathmodeldag.py:184-195) *)
+  guard (negb (is_nil (cons i)) && has_covlen i && negb (has_len_attr i)) VE ;>
+  guard (negb (is_nil (cons i)) && has_covlen i && cov_lt1 i) VE ;> None.
+(* OLD BEHAVIOUR (before the repair of the coverage_length range check): the range test sat under `if len(subpath_constraints) > 0` *)
+Definition old_v_pathmodel (i : input) (k_bad : bool) : step :=
+  guard k_bad VE ;>
+  check_cons (internal_cons i) ;>
+  guard (negb (cov_ok i)) VE ;>
   guard (negb (is_nil (cons i)) && has_covlen i && negb (covlen_ok i)) VE ;>
   guard (negb (is_nil (cons i)) && has_covlen i && negb (has_len_attr i)) VE ;>
   guard (negb (is_nil (cons i)) && has_covlen i && cov_lt1 i) VE ;> None.
@@ -304,6 +312,9 @@ Definition validate_kPathCover (i : input) : outcome :=
   v_stdag i (st_of i) (en_of i) ;;
   v_pathmodel i (k_bad i) ;;
   Accept.
+
+Definition old_validate_kPathCover (i : input) : outcome :=
+  front_cover i ;; v_stdag i (st_of i) (en_of i) ;; old_v_pathmodel i (k_bad i) ;; Accept.
 
 (* MinPathCover (minpathcover.py:96-199): stDAG in the constructor; solve() builds kPathCover(G_input, cover_type, the
    caller's constraints / ignore list / starts / ends) for k = lower bound, ... |E| *)
@@ -405,10 +416,10 @@ Definition dom_ign (i : input) :=
 Definition dom_starts (i : input) := all_in (starts i) && all_in (ends i).
 Definition dom_weights (i : input) := wtype_ok i && negb (bad_live i).
 Definition dom_cons (i : input) := cons_wf i && cov_ok i.
-(* DAG models: subpath_constraints_coverage_length in (0,1], needs length_attr, and excludes a coverage below 1; like the code,
-   the documentation ties these to the presence of constraints *)
+(* DAG models: subpath_constraints_coverage_length, if set, lies in (0,1]; with constraints it needs length_attr and excludes a
+   coverage below 1 *)
 Definition dom_covlen (i : input) :=
-  is_nil (cons i) || negb (has_covlen i) || (covlen_ok i && has_len_attr i && negb (cov_lt1 i)).
+  covlen_ok i && (is_nil (cons i) || negb (has_covlen i) || (has_len_attr i && negb (cov_lt1 i))).
 Definition dom_flow (i : input) := conserving i || negb (ign_internal_empty i).
 
 Definition in_domain_stDAG (i : input) := dom_graph_dag i && dom_starts i.
